@@ -19,7 +19,7 @@ def sh(cmd, cwd=None, timeout=1800):
 
 def main():
     ap = argparse.ArgumentParser(); ap.add_argument('sid'); ap.add_argument('wt'); ap.add_argument('--props'); ap.add_argument('--skip-demo', action='store_true'); ap.add_argument('--recheck', action='store_true', help='only re-run the checks against seeded/<id>/patch.diff')
-    ap.add_argument('--property'); ap.add_argument('--change'); ap.add_argument('--needs')
+    ap.add_argument('--property'); ap.add_argument('--change'); ap.add_argument('--needs'); ap.add_argument('--tier', choices=('quick', 'thorough'), default='quick')
     a = ap.parse_args()
     wt = a.wt; seed = os.path.join(wt, 'SEED')
     log = {}
@@ -57,7 +57,7 @@ def main():
         props = a.props.split(',') if a.props else [c['property_id'] for c in m['checks']]
         env = dict(os.environ, VERIF_EVIDENCE_DIR='/tmp/seed-ev', VERIF_OUT='/tmp/seed-out')
         for pid in props:
-            p = subprocess.run([os.path.join(VERIF, 'check'), pid], capture_output=True, text=True, env=env)
+            p = subprocess.run([os.path.join(VERIF, 'check'), pid, '--tier', a.tier], capture_output=True, text=True, env=env)
             rules = sorted(set(re.findall(r'violation: rule=(\S+)', p.stdout)))
             if p.returncode != 0: fired[pid] = {'exit': p.returncode, 'rules': rules, 'first': next((l.strip()[:300] for l in p.stdout.splitlines() if 'violation:' in l or 'ANALYSIS-BROKEN' in l), '')}
     finally:
@@ -73,6 +73,7 @@ def main():
     meta = json.load(open(meta_path)) if os.path.exists(meta_path) else {}
     for k in ('property', 'change', 'needs'):
         if getattr(a, k): meta[k] = getattr(a, k)
+    if a.tier != 'quick': meta['tier'] = a.tier
     if a.recheck:
         meta['checks_fired'] = fired
         json.dump(meta, open(meta_path, 'w'), indent=1); print('rechecked', dst); return
